@@ -55,8 +55,20 @@ func ZZ_C18_ErrPending() {
 		err = c.SetReplicaMode(addr, types.RW)
 		zzAssert(!e.attached(addr) || e.modeOf(addr) == types.ERR, "C18.errpending.ERR-replica-revived")
 	case 5:
-		buf := make([]byte, 8)
-		_, err = c.WriteAt(buf, 0)
+		// a write or a flush with every per-replica outcome symbolic: the majority rule and
+		// the detachment of laggards hold with the ERR entry still listed
+		W := e.zzWriters()
+		zzmodel.OpSeq = 1
+		if zzNondetBool("flush") {
+			n, serr := c.Sync()
+			err = serr
+			e.zzCheckC02("C02.errpending.sync", W, 1, n == 0 && serr == nil, "S")
+		} else {
+			buf := make([]byte, 8)
+			n, werr := c.WriteAt(buf, 0)
+			err = werr
+			e.zzCheckC02("C02.errpending.write", W, 1, n == len(buf) && werr == nil, "W")
+		}
 		zzAssert(len(zzmodel.Replicas[addr].Applied)+len(zzmodel.Replicas[addr].Failed) == seen, "C05.errpending.write-sent-to-ERR-replica")
 	case 6:
 		_, err = c.Snapshot("s2")
